@@ -412,6 +412,113 @@ func enumSingleEdits(yield func(MutCase) bool) {
 }
 
 // ---------------------------------------------------------------------------
+// generated payments: several lines whose documents carry tax summaries that
+// share categories and percentages but differ in surcharges / extensions
+
+type PayRate struct {
+	Percent   string `json:"percent,omitempty"` // empty: exempt group
+	Surcharge string `json:"surcharge,omitempty"`
+	Ext       string `json:"ext,omitempty"`
+	Base      string `json:"base"`
+}
+
+type PayLine struct {
+	Debit  string    `json:"debit,omitempty"`
+	Credit string    `json:"credit,omitempty"`
+	Cat    string    `json:"cat,omitempty"` // empty: no tax summary
+	Rates  []PayRate `json:"rates,omitempty"`
+}
+
+type PayCase struct {
+	Regime string    `json:"regime"`
+	Lines  []PayLine `json:"lines"`
+}
+
+func (c PayCase) JSON() []byte {
+	var lines []any
+	for i, l := range c.Lines {
+		doc := map[string]any{"code": fmt.Sprintf("INV-%d", i+1), "issue_date": "2024-05-01"}
+		if l.Cat != "" {
+			var rates []any
+			for _, r := range l.Rates {
+				rm := map[string]any{"base": r.Base, "amount": "0.00"}
+				if r.Percent != "" {
+					rm["percent"] = r.Percent
+				}
+				if r.Surcharge != "" {
+					rm["surcharge"] = map[string]any{"percent": r.Surcharge, "amount": "0.00"}
+				}
+				if r.Ext != "" {
+					rm["ext"] = map[string]any{"xx-verif-group": r.Ext}
+				}
+				rates = append(rates, rm)
+			}
+			doc["tax"] = map[string]any{"categories": []any{map[string]any{"code": l.Cat, "rates": rates, "amount": "0.00"}}, "sum": "0.00"}
+		}
+		lm := map[string]any{"document": doc}
+		if l.Debit != "" {
+			lm["debit"] = l.Debit
+		}
+		if l.Credit != "" {
+			lm["credit"] = l.Credit
+		}
+		lines = append(lines, lm)
+	}
+	out, _ := json.Marshal(map[string]any{
+		"$schema": "https://gobl.org/draft-0/bill/payment", "$regime": c.Regime, "type": "receipt", "code": "PAY-1",
+		"issue_date": "2024-06-13", "currency": "EUR", "supplier": map[string]any{"name": "Supplier"}, "lines": lines,
+	})
+	return out
+}
+
+func genPayCase(t *rapid.T) PayCase {
+	c := PayCase{Regime: rapid.SampledFrom([]string{"ES", "IT", "PT", "FR"}).Draw(t, "regime")}
+	n := rapid.IntRange(1, 4).Draw(t, "nlines")
+	for i := 0; i < n; i++ {
+		l := PayLine{}
+		if rapid.IntRange(0, 4).Draw(t, "hasdebit") > 0 {
+			l.Debit = rapid.SampledFrom([]string{"121.00", "100", "0.005", "-50.00", "0"}).Draw(t, "debit")
+		}
+		if rapid.IntRange(0, 2).Draw(t, "hascredit") == 0 {
+			l.Credit = rapid.SampledFrom([]string{"21.00", "1.234", "0"}).Draw(t, "credit")
+		}
+		if rapid.IntRange(0, 5).Draw(t, "hastax") > 0 {
+			l.Cat = rapid.SampledFrom([]string{"VAT", "VAT", "IRPF", "IGIC"}).Draw(t, "cat")
+			for j, m := 0, rapid.IntRange(1, 3).Draw(t, "nrates"); j < m; j++ {
+				r := PayRate{Base: rapid.SampledFrom([]string{"100.00", "50.00", "-20.00", "0.00"}).Draw(t, "base")}
+				r.Percent = rapid.SampledFrom([]string{"21%", "21%", "10%", "", "0%", "21.0%"}).Draw(t, "pct")
+				if r.Percent != "" && rapid.IntRange(0, 2).Draw(t, "sur") == 0 {
+					r.Surcharge = rapid.SampledFrom([]string{"5.2%", "1.4%"}).Draw(t, "surv")
+				}
+				if rapid.IntRange(0, 5).Draw(t, "ext") == 0 {
+					r.Ext = rapid.SampledFrom([]string{"A", "B"}).Draw(t, "extv")
+				}
+				l.Rates = append(l.Rates, r)
+			}
+		}
+		c.Lines = append(c.Lines, l)
+	}
+	return c
+}
+
+func judgePayCase(c PayCase, o *vh.Obs) {
+	withSur, without := false, false
+	for _, l := range c.Lines {
+		for _, r := range l.Rates {
+			if r.Surcharge != "" {
+				withSur = true
+			} else if r.Percent != "" {
+				without = true
+			}
+		}
+	}
+	if withSur && without {
+		o.Class("surcharge-on-one-side")
+	}
+	pipeline(c.JSON(), o)
+}
+
+// ---------------------------------------------------------------------------
 // bulk: a hostile request must get an answer and must not stop the stream
 
 func bulkOne(doc []byte, o *vh.Obs) {
@@ -572,7 +679,7 @@ var fuzzParse, fuzzBulk func(t *testing.T, c BytesCase)
 
 func init() {
 	vh.Describe(
-		"(1) every single edit (quick tier: of a tenth of the nodes, rotating with the seed) (delete; set to null / [null] / \"\" / {}; insert a null element; duplicate the first element) of every node of every example document and of its calculated envelope, exhaustively; (2) rapid: 1-3 random edits drawn from a hostile value list (nulls, retyped values, unknown currency / country / regime / addon / schema ids, empty and huge numbers, empty and null signatures, deep nesting, duplicated elements); (3) fixed hostile texts and truncated examples; (3b) generated documents (internal/docgen) with legal but degenerate numbers: -100% / 0% / huge percentages also as tax rates, with and without included taxes; (4) thorough: native fuzzing of the parser pipeline and of the bulk request stream. Every input goes through Parse, Envelop, Calculate, Validate, Digest, Verify, Sign, Correct (7 option variants), Replicate, Invert, RemoveIncludedTaxes, Marshal and through bulk build / validate / correct / replicate / verify requests. Oracle: no panic (signature = first gobl frame), no hang (20 s watchdog), every envelope-API error is a *gobl.Error with a documented key that serialises to JSON, every bulk request is answered and the stream ends with one final marker. Non-trivial: the input parses (reaches logic beyond unmarshalling).",
+		"(1) every single edit (quick tier: of a tenth of the nodes, rotating with the seed) (delete; set to null / [null] / \"\" / {}; insert a null element; duplicate the first element) of every node of every example document and of its calculated envelope, exhaustively; (2) rapid: 1-3 random edits drawn from a hostile value list (nulls, retyped values, unknown currency / country / regime / addon / schema ids, empty and huge numbers, empty and null signatures, deep nesting, duplicated elements); (3) fixed hostile texts and truncated examples; (3b) generated documents (internal/docgen) with legal but degenerate numbers: -100% / 0% / huge percentages also as tax rates, with and without included taxes, and generated payments of 1-4 lines whose documents carry tax summaries sharing categories and percentages but differing in surcharges and extensions; (4) thorough: native fuzzing of the parser pipeline and of the bulk request stream. Every input goes through Parse, Envelop, Calculate, Validate, Digest, Verify, Sign, Correct (7 option variants), Replicate, Invert, RemoveIncludedTaxes, Marshal and through bulk build / validate / correct / replicate / verify requests. Oracle: no panic (signature = first gobl frame), no hang (20 s watchdog), every envelope-API error is a *gobl.Error with a documented key that serialises to JSON, every bulk request is answered and the stream ends with one final marker. Non-trivial: the input parses (reaches logic beyond unmarshalling).",
 		"a watchdog expiry is reported as a hang only through the replay file (replay must reproduce it)",
 	)
 	vh.Enum("seeds", enumSeeds, judgeBytes)
@@ -586,6 +693,7 @@ func init() {
 			o.Class("tax-included")
 		}
 	})
+	vh.Rapid("generated_payments", 3_000, 300_000, genPayCase, judgePayCase)
 	fuzzParse = vh.FuzzTarget("FuzzParse", judgeBytes)
 	fuzzBulk = vh.FuzzTarget("FuzzBulk", judgeBulkBytes)
 }
